@@ -58,7 +58,13 @@ def snap(v, drop=()):
     if type(v) in (bool, int, str):
         return (type(v).__name__, v)
     if type(v) is float:
-        return ("float", repr(v))
+        return ("float", repr(v + 0.0))  # -0.0 == 0.0
+    if isinstance(v, str):
+        return ("str:" + type(v).__name__, str.__str__(v))
+    if isinstance(v, int) and not isinstance(v, bool):
+        return ("int:" + type(v).__name__, int(v))
+    if isinstance(v, float):
+        return ("float:" + type(v).__name__, repr(float(v)))
     if hasattr(v, "relative") and hasattr(v, "absolute") and hasattr(v, "mode"):
         # jsonargparse Path objects: the path as given, where it points to, and the mode
         return ("path", type(v).__name__, str(v.relative), str(v.absolute), v.mode)
@@ -88,6 +94,10 @@ def first_diff(a, b, path=""):
                 return d
     if tag == "dict":
         da, db = dict(a[1]), dict(b[1])
+        only_a = sorted((k for k in da if k not in db), key=repr)
+        only_b = sorted((k for k in db if k not in da), key=repr)
+        if only_a and only_b:
+            return (f"{path}[{only_a[0][-1]!r}]", f"key:{only_a[0][0]}>{only_b[0][0]}", only_a[0], only_b[0])
         for k in sorted(set(da) | set(db), key=repr):
             if k not in db:
                 # a key that disappeared: was it re-read as another type?
@@ -100,12 +110,14 @@ def first_diff(a, b, path=""):
             d = first_diff(da[k], db[k], f"{path}[{k[-1]!r}]")
             if d:
                 return d
-    if tag in ("list", "tuple", "set"):
+    if tag == "set":
+        only_a = [x for x in a[1] if x not in b[1]]
+        only_b = [x for x in b[1] if x not in a[1]]
+        if only_a:
+            return (path + "{}", f"{only_a[0][0]}>{only_b[0][0] if only_b else 'missing'}", only_a[0], only_b[0] if only_b else None)
+        return (path + "{}", f"missing>{only_b[0][0]}", None, only_b[0])
+    if tag in ("list", "tuple"):
         if len(a[1]) != len(b[1]):
-            if tag == "set":
-                only = [x for x in a[1] if x not in b[1]]
-                if only:
-                    return (path, f"{only[0][0]}>missing", only[0], None)
             return (path, f"{tag}:len{len(a[1])}>len{len(b[1])}", a, b)
         for i, (x, y) in enumerate(zip(a[1], b[1])):
             d = first_diff(x, y, f"{path}[{i}]")
@@ -116,9 +128,9 @@ def first_diff(a, b, path=""):
 
 def leaf_label(s):
     """Short deterministic rendering of a snapshot leaf / an input for canonical keys."""
-    if isinstance(s, tuple) and len(s) >= 2 and s[0] in ("str", "int", "bool", "float", "enum", "path", "SecretStr"):
+    if isinstance(s, tuple) and len(s) >= 2 and s[0].split(":")[0] in ("str", "int", "bool", "float", "enum", "path", "SecretStr"):
         v = s[2] if s[0] in ("enum", "path") else s[1]
-        return short(v if s[0] != "float" else s[1], raw=s[0] == "float")
+        return short(v, raw=s[0].startswith("float"))
     if isinstance(s, tuple):
         return short(unsnap(s))
     return short(s)
@@ -157,13 +169,13 @@ def strings_in(s, out=None):
     elif tag in ("list", "tuple", "set"):
         for x in s[1]:
             strings_in(x, out)
-    elif tag == "str":
+    elif tag.split(":")[0] == "str":
         out.append(("str", s[1]))
     elif tag == "enum":
         out.append(("enum", s[2]))
     elif tag == "path":
         out.append(("path", s[2]))
-    elif tag == "float":
+    elif tag.split(":")[0] == "float":
         out.append(("float", s[1]))
     return out
 
@@ -260,7 +272,7 @@ def leaves(thorough):
         TS("PositiveInt", PositiveInt, [1, 7, "2", "010", 10**20, 0, -1, 1.5, 2.0, True, "x", None], [1, "2", 0], PositiveInt(3)),
         TS("ClosedUnitInterval", ClosedUnitInterval, [0, 1, 0.5, 1e-7, "1e-3", ".5", 5e-324, 1.5, -0.1, "x", True, float("nan")], [0.5, 1, 1e-7], ClosedUnitInterval(0.25)),
         TS("Percent", Percent, [0, 100, 99.9, 1e-7, "1e2", 100.1, "x"], [99.9, 1e-7], Percent(50.0)),
-        TS("Path_fr", Path_fr, FILES + ["missing.txt", "", 123, None], ["f.txt", "123", "1e3", "null"], "f.txt"),
+        TS("Path_fr", Path_fr, FILES + ["missing.txt", "", 123, None], ["f.txt", "123", "1e3", "null"], Path_fr("f.txt") if os.path.isfile("f.txt") else None),
         TS("Email", Email, ["a@b.c", "1e3@1e3.1e3", "x", 1], ["a@b.c"], Email("d@e.f")),
         TS("NumLike", NumLike, ["1e3", "123", "1.5", "1_000", "1e+3", "0", "010", "x", 123], ["1e3", "123", "1.5"], NumLike("0")),
         TS("timedelta", datetime.timedelta, ["1:00:00", "0:00:01", "2 days, 0:00:01.000005", "-2 days, 0:00:01", "1:00:00.000005", datetime.timedelta(hours=30, microseconds=7), "x", 5],
@@ -273,6 +285,28 @@ def leaves(thorough):
         TS("SecretStr", SecretStr, ["abc", "1e3", "null", "", SecretStr("x"), 5], ["abc", "1e3"], SecretStr("s")),
     ]
     return out
+
+
+PICK = {"Optional[str]", "Optional[int]", "Optional[float]", "Optional[Path_fr]", "Optional[Color]", "Union[int,str]", "Union[str,int]", "Union[float,str]", "Union[str,float]",
+        "Union[bool,int]", "Union[None,str]", "Union[str,int,float]", "Union[float,int,str]", "List[str]", "List[int]", "List[float]", "List[Path_fr]", "List[NumEnum]",
+        "Dict[str,str]", "Dict[str,int]", "Dict[str,float]", "Dict[int,str]", "Tuple[str,...]", "Tuple[int,...]", "Tuple[str,int]", "Tuple[float,str]", "Tuple[str]", "Set[str]", "Set[int]",
+        "List[Literal]", "Dict[str,Color]", "List[Decimal]", "List[timedelta]", "Optional[NumLike]", "List[SecretStr]", "Union[PositiveInt,str]", "Union[Path_fr,int]"}
+FEW = ["str", "int", "float", "bool", "Literal", "Color", "NumEnum", "Path_fr", "Optional[str]", "Dict[str,str]", "List[str]", "Union[int,str]", "Union[str,int]", "Tuple[str,int]"]
+
+
+def select(types, subset):
+    """Named sub-grammars: all | d1 (depth <= 1) | pick (leaves + representative depth-1) | few."""
+    if subset == "all":
+        return list(types)
+    if subset == "d1":
+        return [t for t in types if t.depth <= 1]
+    if subset == "pick":
+        return [t for t in types if t.depth == 0 or t.name in PICK]
+    if subset == "few":
+        return [t for t in types if t.name in FEW]
+    if subset == "tiny":
+        return [t for t in types if t.name in FEW[:1] + FEW[2:3] + FEW[5:6] + FEW[7:10] + FEW[11:12]]
+    raise ValueError(subset)
 
 
 UNION_POOL = ["str", "int", "float", "bool", "Color", "None"]
@@ -314,7 +348,7 @@ def wrap(kind, inner: List[TS], thorough, aux=None):
         return TS(f"List[{t.name}]", List[t.hint], vals, [[], list(core[:2]), [core[-1]]], [t.canon], d, kind)
     if kind == "DictS":
         keys = TRICKY_CORE + ["a.b", "1_000", "0x10", ".inf", "a\nb", "\x85"] if d == 1 else TRICKY_MIN
-        vals = [{}] + [{k: core[0]} for k in keys] + [{"k": v} for v in core[1:]] + [{"k": core[0], "1e3": core[-1], "j": core[0]}, None, [], "x", {1: core[0]}, {1.5: core[0]}, {True: core[0]}, {None: core[0]}]
+        vals = [{}] + [{k: core[0]} for k in keys] + [{"k": v} for v in core[1:]] + [{"k": core[0], "1e3": core[-1], "j": core[0]}, None, [], "x"]
         return TS(f"Dict[str,{t.name}]", Dict[str, t.hint], vals, [{}, {"k": core[0]}, {"1e3": core[-1], "null": core[0]}], {"k": t.canon}, d, kind)
     if kind == "DictI":
         vals = [{}, {1: core[0]}, {"2": core[0], "-3": core[-1]}, {"010": core[0]}, {"0x10": core[0]}, {"1_0": core[0]}, {10**20: core[0]}, {True: core[0]}, {"x": core[0]}, {1.5: core[0]}, None]
@@ -377,11 +411,7 @@ def make_types(thorough: bool, maxdepth: int):
         if full:
             inner = prev
         else:
-            pick = {"Optional[str]", "Optional[int]", "Optional[float]", "Optional[Path_fr]", "Optional[Color]", "Union[int,str]", "Union[str,int]", "Union[float,str]", "Union[str,float]",
-                    "Union[bool,int]", "Union[None,str]", "Union[str,int,float]", "Union[float,int,str]", "List[str]", "List[int]", "List[float]", "List[Path_fr]", "List[NumEnum]",
-                    "Dict[str,str]", "Dict[str,int]", "Dict[str,float]", "Dict[int,str]", "Tuple[str,...]", "Tuple[int,...]", "Tuple[str,int]", "Tuple[float,str]", "Tuple[str]", "Set[str]", "Set[int]",
-                    "List[Literal]", "Dict[str,Color]", "List[Decimal]", "List[timedelta]", "Optional[NumLike]", "List[SecretStr]"}
-            inner = [t for t in prev if t.name in pick]
+            inner = [t for t in prev if t.name in PICK]
         nxt = []
         for t in inner:
             for kind in ("Optional", "List", "DictS", "TupleE", "Set"):
@@ -456,6 +486,7 @@ class Built:
     leaf: str  # dotted key of the leaf in the result
     drop: tuple = ("cfg",)
     sub_cfg_argv: Any = None
+    pc_first: bool = False  # --print_config has to precede the arguments (subcommands at the top level)
 
 
 def build(shape, ts: TS, default=None, mode="yaml", with_cfg=True, dump_header=None, env=False):
@@ -613,6 +644,8 @@ def run_units(h, worker, units, procs=None):
     import multiprocessing
 
     totals = {}
+    if os.environ.get("VERIF_PROCS"):
+        procs = int(os.environ["VERIF_PROCS"])
     procs = procs or min(16, os.cpu_count() or 1)
     if procs <= 1 or len(units) <= 1:
         for u in units:
